@@ -210,6 +210,9 @@ func check(spec *PropSpec, tier, root string, verbose bool, replayOb *Ob, writeE
 		cfgNames = append(cfgNames, cfgName)
 		verdict := map[string]string{}
 		for _, rn := range spec.Rules {
+			if c.A.Deferred != "" && rn != "J-ABS" {
+				lost("%s", c.A.Deferred)
+			}
 			r := c.run(rn)
 			for _, o := range r.Obs {
 				verdict[o.Rule+"|"+o.Key] = o.Status
